@@ -69,6 +69,9 @@ def _species(rng):
     n_dir = rng.choice([0, 1, 1, 2]) if species else rng.choice([1, 1, 2])
     dlabels = ["", "A", "B", "X", "A2", "A1", "X12"]
     rng.shuffle(dlabels)
+    if n_dir == 2 and dlabels[0] and rng.random() < 0.2:
+        # two labels that differ in letter case only: labels are compared as written
+        dlabels[1] = dlabels[0].lower()
     for k in range(n_dir):
         order = rng.choice([1, 1, 1, 2])
         species.append((">", dlabels[k], order))
